@@ -565,6 +565,26 @@ package badger
 //@   ensures[at-or-after-key] result <==> keycmp(s.tables[i].biggest, key) >= 0
 //@   assigns nothing
 
+// getMemTables: the memtables in precedence order: the active one first, then the immutable
+// ones from the newest (last in the list) to the oldest, each referenced.
+//@ func (*DB).getMemTables
+//@   props C01 C21 C12
+//@   light
+//@   assert[active-first] before call IncrRef#1 : arg0 == db.mt && len(tables) == 1 && tables[0] == db.mt && held(db.lock)
+//@   assert[immutables-newest-first] before call IncrRef#2 : arg0 == db.imm[len(db.imm) - 1 - i] && len(tables) >= 1 && tables[len(tables)-1] == arg0
+
+// Picking level-0 tables for a compaction to the base level: oldest first, and only a prefix of
+// the list: picking stops at the first table that does not overlap the range picked so far (a
+// newer table must never go down while an older one stays); the picked range and tables are
+// recorded, and the compaction is registered against running ones.
+//@ func (*levelsController).fillTablesL0ToLbase
+//@   props C12 C14
+//@   light
+//@   loop 1 invariant[oldest-prefix] len(out) == rangeindex + 1
+//@   assert[only-overlapping] before call append : ret(overlapsWith#1)
+//@   assert[range-of-picked] before call overlappingTables : cd.top == out && arg2.left == ret(getKeyRange#2).left && arg2.right == ret(getKeyRange#2).right
+//@   assert[registered-last] before return#3 : result == ret(compareAndAdd#1)
+
 // ---- managed mode (C36) ----
 
 //@ func (*DB).NewTransactionAt
@@ -624,10 +644,12 @@ package badger
 // The prefixes are tested against the user key, not the internal key (whose eight version
 // bytes, 0xFF.. for small versions, could otherwise complete a prefix the user key lacks).
 //@ func buildL0Table
-//@   props C29
+//@   props C29 C12 C01 C33
 //@   light
 //@   assert[user-key] before call hasAnyPrefixes : arg0 == ret(ParseKey#1) && arg1 == dropPrefixes
 //@   assert[of-current-key] before call ParseKey#1 : arg0 == ret(Key#1)
+//@   assert[every-other-entry-written] before call Next : called(Add#1) || (len(dropPrefixes) > 0 && called(hasAnyPrefixes#1) && ret(hasAnyPrefixes#1))
+//@   assert[written-as-stored] before call Add : arg0 == b && arg1 == ret(Key#2) && arg2 == ret(Value#2)
 
 // addKeys decides which versions a compaction keeps (C13, C12, C14, C33, C29). Checked here:
 // an entry is dropped by the version rule only at or below the discard timestamp and never when
@@ -1397,6 +1419,7 @@ package badger
 //@ func (*levelsController).addSplits
 //@   props C14 C12
 //@   light
+//@   assert[splits-cover-both-ranges] before call extend : skr.left == cd.thisRange.left && skr.right == cd.thisRange.right && arg1.left == cd.nextRange.left && arg1.right == cd.nextRange.right
 //@   assert[boundary-is-last-version-of-user-key] before call KeyWithTs : arg0 == ret(ParseKey#1) && arg1 == 0
 //@   assert[boundary-from-biggest] before call ParseKey : arg0 == ret(Biggest#1)
 //@   assert[last-split-open] before call addRange#1 : i == len(cd.bot) - 1 && len(arg0) == 0
